@@ -64,7 +64,7 @@ def build_inputs(tier):
         x, t, kinds = xonshgen.gen_subproc(r)
         cases.append(("gen", x, t, kinds))
     # witnesses of the recorded findings and their neighbourhood: bracket groups inside words, keywords as words
-    for cmd in ["ls *.[ch] x", "echo a[0] b", "echo (a b) c", "echo [a   b]", "echo a(b c)d e", "echo {a,b}", "echo if x", "echo in", "grep for file", "echo a is b", "test x -a not"]:
+    for cmd in ["echo what? x", "ls file?.txt", "echo a ??", "echo $ HOME", "ls *.[ch] x", "echo a[0] b", "echo (a b) c", "echo [a   b]", "echo a(b c)d e", "echo {a,b}", "echo if x", "echo in", "grep for file", "echo a is b", "test x -a not"]:
         exp = f"__xonsh__.subproc_captured({', '.join(repr(w) for w in split_independent(cmd))})"
         cases.append(("plain", f"$({cmd})", exp, ["kf-neighbourhood"]))
     # plain-word-only commands checked against str.split()
@@ -126,6 +126,10 @@ def classify(x, o):
 
     inner = x[2:-1]
     words = inner.split()
+    if o.get("kind") in ("args-differ", "rejected") and "?" in inner:
+        return "KF-C06-help-mark-in-word"
+    if o.get("kind") in ("args-differ", "rejected") and re.search(r"\$\s+\w", inner):
+        return "KF-C06-dollar-then-blank"
     if o.get("kind") == "rejected" and any(keyword.iskeyword(w) for w in words):
         return "KF-C06-keyword-as-word"
     if o.get("kind") in ("args-differ", "word-boundaries", "word-span", "rejected") and re.search(r"[\[({]", inner.replace("@(", "").replace("$(", "").replace("$[", "").replace("${", "").replace("!(", "").replace("![", "").replace("@$(", "")):
